@@ -22,12 +22,27 @@ import platform
 platform.node = lambda: "verif.local"
 
 _C = None
+_HOME = None
 
 
 def commands():
     global _C
     if _C is None:
-        import ascmhl.commands as C
+        # the tool is imported while the working directory is a small scratch folder of its own: code that (wrongly)
+        # remembers the working directory of import time then works on that folder, not on the harness's own tree
+        global _HOME
+        import atexit
+
+        _HOME = tempfile.mkdtemp(prefix="mhlv_home_", dir="/dev/shm" if os.path.isdir("/dev/shm") else None)
+        with open(os.path.join(_HOME, "marker.txt"), "w") as f_:
+            f_.write("import-time working directory of the harness\n")
+        atexit.register(shutil.rmtree, _HOME, True)
+        old_ = os.getcwd()
+        os.chdir(_HOME)
+        try:
+            import ascmhl.commands as C
+        finally:
+            os.chdir(old_)
 
         assert os.path.realpath(C.__file__).startswith(os.path.realpath(REPO) + os.sep), (C.__file__, REPO)
         _C = C
